@@ -117,12 +117,14 @@ def template_fn_at(gen_lines, line):
     return None
 
 
-def run_unit(unit, repo=None, rlimit=30, vacuity=False, outdir=OUT, seed=None, keep_air=True):
+def run_unit(unit, repo=None, rlimit=30, vacuity=False, outdir=OUT, seed=None, keep_air=True, case=None):
     """Generate and verify one unit. Returns a result dict; never raises for verifier findings."""
     t0 = time.time()
     res = {'unit': unit, 'status': 'ok', 'engine_errors': [], 'failures': [], 'functions': [], 'wall_s': 0.0}
     try:
-        if vacuity:
+        if case:
+            path, meta = vx_gen.generate(unit, outdir, repo or vx_gen.REPO, False, case)
+        elif vacuity:
             path, meta = vx_gen.generate_vacuity(unit, outdir, repo or vx_gen.REPO, vacuity)
         else:
             path, meta = vx_gen.generate(unit, outdir, repo or vx_gen.REPO)
@@ -146,6 +148,10 @@ def run_unit(unit, repo=None, rlimit=30, vacuity=False, outdir=OUT, seed=None, k
         cmd += ['--smt-option', 'smt.random_seed=%d' % seed]
     for o in meta.get('smt_options', []):
         cmd += ['--smt-option', o]
+    if case:
+        # a case-split twin verifies only the split function (everything else is verified in the main file)
+        impl_hdr, fname = case[0].rsplit('::', 1)
+        cmd += ['--verify-root', '--verify-function', (impl_type(impl_hdr) + '::' if impl_hdr != '-' else '') + fname]
     res['checker_cmd'] = ' '.join(cmd)
     try:
         p = subprocess.run(cmd, cwd=os.path.dirname(path), capture_output=True, text=True, timeout=3600)
@@ -273,9 +279,42 @@ def run_unit(unit, repo=None, rlimit=30, vacuity=False, outdir=OUT, seed=None, k
     # sanity: something must have been verified
     if res['status'] == 'ok':
         ver = (js or {}).get('verification-results', {})
-        if not ver.get('success') or ver.get('verified', 0) == 0:
+        good = ver.get('success') if not case else (not ver.get('encountered-error') and ver.get('errors', 1) == 0 and ver.get('verified', 0) >= 1)
+        if not good or (ver.get('verified', 0) == 0 and not case):
             res['status'] = 'engine-failure'
             res['engine_errors'].append('verus did not report success: %s' % json.dumps(ver))
+    # ---------- case-split twins (obligation splitting for functions whose merged query explodes)
+    if not case and not vacuity and meta.get('case_splits'):
+        import concurrent.futures as cf
+        jobs = []
+        with cf.ThreadPoolExecutor(max_workers=10) as ex:
+            for fn_key, guards in meta['case_splits'].items():
+                for i, g in enumerate(guards):
+                    jobs.append((fn_key, i, g, ex.submit(run_unit, unit, repo, rlimit, False, outdir, seed, keep_air, (fn_key, i))))
+            for fn_key, i, g, fut in jobs:
+                cr = fut.result()
+                impl_hdr, fname = fn_key.rsplit('::', 1)
+                nm = (impl_type(impl_hdr) + '::' if impl_hdr != '-' else '') + fname
+                if cr['status'] == 'engine-failure':
+                    res['status'] = 'engine-failure'
+                    res['engine_errors'].append('case twin %s [%s]: %s' % (nm, g, '; '.join(cr['engine_errors'])[:200]))
+                for f in cr['failures']:
+                    f = dict(f)
+                    f['obligation'] = f['obligation'].replace(unit + '/', unit + '/[case %s] ' % g, 1)
+                    res['failures'].append(f)
+                    if res['status'] == 'ok':
+                        res['status'] = 'failed-obligations'
+                for fe in res['functions']:
+                    if fe['name'] == fname and fe['impl'] == impl_hdr:
+                        cf_ = [x for x in cr['functions'] if x['name'] == fname and x['impl'] == impl_hdr]
+                        if cf_:
+                            fe['obligations'] += cf_[0]['obligations']
+                            fe['smt_us'] += cf_[0]['smt_us']
+                            fe['ext'] = False
+                            fe['case_split'] = len(guards)
+                            fe['success'] = (fe.get('success') is not False) and bool(cf_[0]['success'])
+                            if fe['verus_name'] is None:
+                                fe['verus_name'] = cf_[0]['verus_name']
     res['wall_s'] = round(time.time() - t0, 2)
     return res
 
